@@ -14,7 +14,7 @@ Definition mix_bytes (h : hsum) (bs : list byte) : hsum :=
 
 Definition errcode (k : errkind) : Z :=
   match k with
-  | EEof => 1 | ETooLong => 2 | EValue => 3 | EUnicode => 4 | EStruct => 5 | EAttribute => 6
+  | EEof => 1 | ETooLong => 3 (* = EValue: both are ValueError *) | EValue => 3 | EUnicode => 4 | EStruct => 5 | EAttribute => 6
   | EType => 7 | EKey => 8 | EOverflow => 9 | EFuel => 10 | EOther => 11
   end.
 
